@@ -9,7 +9,9 @@
 (*                   pair: "no" | "same" | "term" (the block also carries, FIRST, an attempt with  *)
 (*                   too little gas by the same sender - of the same call, or of a termination:    *)
 (*                   two contract transactions share one block state and one VM environment)       *)
-(*                   | "sw-<mid>-<tail>": a SANDWICH block, see below].                            *)
+(*                   | "sw-<mid>-<tail>": a SANDWICH block, see below                              *)
+(*                   | "pf-block" | "pf-mid" | "pf-mid-emb": the address the operation is about to *)
+(*                   create already holds coins (pre-funded future contract address)].             *)
 (* A sandwich block is  [the operation, well-formed and with enough gas]                           *)
 (*   + <mid>: a balance change OUTSIDE any contract environment in between -                       *)
 (*       none | self (the operation pays its own sender: the sender's fee is charged outside)      *)
@@ -61,7 +63,8 @@ Methods(k) ==
       [] k = "erc20"      -> {"transfer", "approve", "transferFrom"}
       [] k = "testcases"  -> {"test"}
       [] k = "sft"        -> {"transferTo", "receive"}
-      [] k = "payer"      -> {"pay", "burn", "payfail", "paytwice", "store", "storefail", "relay", "relayboom", "relayhop"}
+      [] k = "payer"      -> {"pay", "burn", "payfail", "paytwice", "store", "storefail", "relay", "relayboom", "relayhop",
+                              "spawn", "spawnlow", "payspawn"}      \* sub-deployments (of a further instance of its own code)
       [] OTHER            -> {}
 
 Presets(k) == CASE k \in {"oraclelock", "refundlock"} -> {"base", "voted"}
@@ -81,10 +84,16 @@ Dev(k, op) == (IF op.arg # "valid" THEN 1 ELSE 0) + (IF op.amt # DefAmt(k, op.m)
 
 Sandwiches == {"sw-" \o md \o "-" \o tl : md \in {"none", "self", "cin", "xout"}, tl \in {"again", "emb", "wasm", "fail", "two", "termemb"}}
 IsSandwich(op) == op.pair \in Sandwiches
+(* the address the operation is about to CREATE (top-level deployment, sub-deployment) already holds *)
+(* coins: sent there by a plain transfer in an earlier block, in the same block just before the      *)
+(* transaction, or in the same block with a further contract transaction behind                      *)
+(* (payer.payspawn pays the future address earlier in the SAME transaction)                          *)
+Prefunds == {"pf-block", "pf-mid", "pf-mid-emb"}
+Creates(k, op) == op.m = "deploy" \/ (k = "payer" /\ op.m \in {"spawn", "spawnlow", "payspawn"})
 
 TxOps(k) == {[m |-> m, arg |-> a, amt |-> p, gas |-> g, who |-> r, pair |-> pr] :
                 m \in Methods(k) \cup {"deploy", "terminate", "unknown"},
-                a \in ArgClasses, p \in AmtClasses, g \in GasClasses, r \in Roles, pr \in {"no", "same", "term"} \cup Sandwiches}
+                a \in ArgClasses, p \in AmtClasses, g \in GasClasses, r \in Roles, pr \in {"no", "same", "term"} \cup Sandwiches \cup Prefunds}
 Ops(k) == {op \in TxOps(k) :
               /\ Dev(k, op) <= MaxDev
               /\ (op.pair \in {"same", "term"} => Embedded(k) /\ op.gas \in {"exact", "enough"})
@@ -93,6 +102,7 @@ Ops(k) == {op \in TxOps(k) :
                                     /\ op.gas = "enough" /\ op.m # "unknown"
                                     /\ (op.pair \in {"sw-none-termemb", "sw-self-termemb", "sw-cin-termemb", "sw-xout-termemb"} => Embedded(k) /\ op.m # "terminate")
                                     /\ op.amt = DefAmt(k, op.m) /\ op.who = DefWho(k, op.m))
+              /\ (op.pair \in Prefunds => Creates(k, op) /\ op.arg \in {"valid", "valid2"} /\ op.gas \in {"enough", "small"})
               /\ (op.m = "terminate" => op.amt = "zero")}
           \cup {[m |-> "fund", arg |-> "valid", amt |-> "big", gas |-> "enough", who |-> "other", pair |-> "no"],
                 [m |-> "wait", arg |-> "valid", amt |-> "zero", gas |-> "enough", who |-> "other", pair |-> "no"]}
